@@ -71,18 +71,20 @@ def model_input(cert, root_cert, clock_offset_s=0, clock_abs_us=None):
         now = _dt.datetime.fromtimestamp(0, _dt.timezone.utc) + _dt.timedelta(microseconds=clock_abs_us)
     els = cert["elements"]
     bymap = {e["name"]: e for e in els}
-    links, values = {}, {}
+    links, values, facts = {}, {}, {}
     for e in bymap.values():
         sb = e["signed_by"]
         if sb == "sgx_root":
             links["%s|" % e["name"]] = sgxgen.link_valid(e, ("root", root_cert), now=now)
+            facts["%s|" % e["name"]] = sgxgen.link_facts(e, ("root", root_cert), now=now)
         elif sb in bymap:
             links["%s|%s" % (e["name"], sb)] = sgxgen.link_valid(e, bymap[sb], now=now)
+            facts["%s|%s" % (e["name"], sb)] = sgxgen.link_facts(e, bymap[sb], now=now)
         if e.get("type") == "sgx_quote":
             values[e["name"]] = {"message": e["custom_data"], "quote": e["message"][:432 * 2]}
     return {"root": "sgx_root", "targets": cert["targets"],
             "elements": [{"name": e["name"], "signed_by": e["signed_by"]} for e in els], "links": links,
-            "values": values}
+            "facts": facts, "values": values}
 
 
 def flip(rng, hexs):
